@@ -24,9 +24,12 @@ uint64_t gdsii_real_from_double(double value) {
         u8_1 = 0x80;
         value = -value;
     }
-    const double fexp = 0.25 * log2(value);
-    double exponent = ceil(fexp);
-    if (exponent == fexp) exponent++;
+    // Smallest base-16 exponent with value < 16^exponent, from the binary exponent of value
+    // (log2 rounds to an integer for doubles just below a power of 16, which used to push the
+    // exponent one too high and, at the top of the range, into the sign bit).
+    int binary_exponent;
+    frexp(value, &binary_exponent);
+    const double exponent = ceil(0.25 * binary_exponent);
     const uint64_t mantissa = (uint64_t)(value * pow(16, 14 - exponent));
     u8_1 += (uint8_t)(64 + exponent);
     const uint64_t result = ((uint64_t)u8_1 << 56) | (mantissa & 0x00FFFFFFFFFFFFFF);
